@@ -1,5 +1,6 @@
 (* C10 — Breakpad symbol index is independent of chunking and agrees with the .sym text. *)
 From SV Require Import Lib.Bytes Model.LineBuffer Proofs.LineBufferProofs Model.BreakpadIndex Proofs.BreakpadIndexProofs.
+From SV Require Import Model.BreakpadIndexParse Proofs.BreakpadIndexParseProofs.
 Open Scope N_scope.
 
 (* For EVERY partition of a byte string into chunks (1-byte chunks, splits inside "\r\n", anything): the lines the incremental
@@ -21,7 +22,17 @@ Theorem C10_index_bytes_chunk_invariant :
     option_map serialize (index_of_chunks chunks1) = option_map serialize (index_of_chunks chunks2).
 Proof. exact index_bytes_chunk_invariant. Qed.
 
+(* parsing a serialized index gives the same tables back, so serializing again reproduces the bytes - for EVERY index whose
+   entries fit their fields and whose serialized size fits the header's 32-bit offsets *)
+Theorem C10_parse_serialize : forall i : index, wf_index i -> parse_symindex (serialize i) = Some i.
+Proof. exact parse_serialize. Qed.
+Theorem C10_serialize_parse_serialize :
+  forall i : index, wf_index i -> option_map serialize (parse_symindex (serialize i)) = Some (serialize i).
+Proof. exact serialize_parse_serialize. Qed.
+
 Print Assumptions C10_chunking.
+Print Assumptions C10_parse_serialize.
+Print Assumptions C10_serialize_parse_serialize.
 Print Assumptions C10_index_chunk_invariant.
 Print Assumptions C10_index_bytes_chunk_invariant.
 
@@ -29,3 +40,8 @@ Print Assumptions C10_index_bytes_chunk_invariant.
 Example ex_chunks :
   lines_of_chunks [[65; 66; 13]; [10; 67]; []; [68]] = ([(0, [65; 66; 13]); (4, [67; 68])], 6, false).
 Proof. vm_compute. reflexivity. Qed.
+
+Example ex_c10_roundtrip :
+  let i := mkIdx [77; 79; 68] [mkF 0 5 100; mkF 3 7 200] [mkF 1 4 300] [mkS 4096 0 10 400; mkS 8192 1 20 500] in
+  parse_symindex (serialize i) = Some i /\ N.of_nat (length (serialize i)) = 140.
+Proof. vm_compute. split; reflexivity. Qed.
